@@ -1559,6 +1559,11 @@ class Parameter(_ParameterBase):
             if not (is_async or val is Undefined):
                 # A value that is rejected must leave the links as they are
                 self._validate(val)
+            if self.readonly:
+                raise TypeError("Read-only parameter '%s' cannot be modified" % name)
+            if self.constant and (is_async or val is Undefined or
+                                  val is not obj._param__private.values.get(name, self.default)):
+                raise TypeError("Constant parameter '%s' cannot be modified" % name)
             refs = obj._param__private.refs
             if ref is not None:
                 obj.param._update_ref(name, ref)
